@@ -198,7 +198,13 @@ class Walker:
             if {"C03"} & self.props and not pre.parametrized:
                 est = self._estimate(op, pre)
             pre_refs = self._refs()
-            self.pre_shift_t = dict(self.pm.last_shift_t)
+            # "possible barrier": time of the last shift the tree registered
+            # (also zero-valued ones, which the statement does not require to
+            # act as a barrier); sanity-bounded by the model below
+            self.pre_shift_t = {
+                (b, q): int(r.phase.last_time)
+                for b, d in seq._basis_ref.items() for q, r in d.items()}
+            self.pre_last_used = dict(self.pm.last_used)
             self.pre_shift_nz = dict(self.pm.last_shift_nz)
             self.pre_nshifts = dict(self.pm.nshifts)
             status, exc = self.it.apply(op)
@@ -614,6 +620,13 @@ class Walker:
         Bnz = max([self.pre_shift_nz.get((basis, x), 0) for x in T] or [0])
         Ball = max([self.pre_shift_t.get((basis, x), 0) for x in T] or [0])
         barriers = {Bnz, Ball}
+        for x in T:
+            reg = self.pre_shift_t.get((basis, x), 0)
+            if reg > self.pre_last_used.get((basis, x), 0) or reg < self.pre_shift_nz.get((basis, x), 0):
+                ctx.fail("C03.barrier", "shift_registered_at_impossible_time",
+                         f"({basis},{x}): registered {reg}, last use "
+                         f"{self.pre_last_used.get((basis, x), 0)}, last real shift "
+                         f"{self.pre_shift_nz.get((basis, x), 0)}")
         cpd = bool(op.get("cpd")) and o == "add_eom"
         if ti < Bnz:
             ctx.fail("C03.barrier", "starts_before_phase_shift",
